@@ -47,7 +47,7 @@ def schema_text(version):
   <xs:element name="f" type="xs:string" fixed="F" minOccurs="0"/>
   <xs:element name="n" type="NT" minOccurs="0" maxOccurs="unbounded"/>
   <xs:any namespace="##other" processContents="lax" minOccurs="0" maxOccurs="unbounded"/>
-</xs:sequence>%s</xs:complexType>
+</xs:sequence>%s<xs:attribute name="when" type="xs:date"/><xs:attribute name="blob" type="xs:hexBinary"/></xs:complexType>
 <xs:complexType name="NT"><xs:simpleContent><xs:extension base="Small"><xs:attribute name="lo" type="xs:int"/>
   <xs:attribute name="hi" type="xs:int"/>%s</xs:extension></xs:simpleContent></xs:complexType>
 <xs:element name="R" type="RT"><xs:unique name="K"><xs:selector xpath=".//item"/><xs:field xpath="."/></xs:unique>
@@ -123,10 +123,12 @@ def gen_doc(rng):
                 node(2, None, True, v)
         body += w
     lang = ' lang="en"' if rng.random() < 0.2 else ''
+    if rng.random() < 0.3:
+        lang += ' when="2020-02-29" blob="0AFF"'
     return {'xml': '<%s %s%s>%s</%s>' % (root, ns, lang, body, root), 'nodes': nodes, 'root': root}
 
 
-OPS = ['is_valid', 'validate', 'iter_errors', 'iter_errors_partial', 'decode_lax', 'decode_strict', 'decode_skip',
+OPS = ['decode_typed', 'is_valid', 'validate', 'iter_errors', 'iter_errors_partial', 'decode_lax', 'decode_strict', 'decode_skip',
        'to_objects', 'encode', 'hook_stop', 'hook_skip_a', 'hook_lax_a', 'lazy_errors', 'lazy_decode', 'simple_scratch',
        'iter_decode_partial', 'max_depth']
 PLAIN = ('iter_errors', 'decode_lax')
@@ -139,7 +141,8 @@ def canon_err(e):
 
 def canon_data(d):
     try:
-        return re.sub(r'0x[0-9a-f]+', '0x', json.dumps(d, sort_keys=True, default=str))[:4000]
+        # values that are not JSON types are tagged with their class: a Date object and its text must not compare equal
+        return re.sub(r'0x[0-9a-f]+', '0x', json.dumps(d, sort_keys=True, default=lambda o: '<%s %s>' % (type(o).__name__, o)))[:4000]
     except Exception:  # noqa
         return repr(d)[:4000]
 
@@ -168,6 +171,9 @@ def apply_op(xmlschema, schema, op, doc, arg):
             return canon_data(r)
         if op == 'decode_strict':
             return canon_data(schema.decode(xml))
+        if op == 'decode_typed':
+            r = schema.decode(xml, validation='lax', decimal_type=str, datetime_types=True, binary_types=True)
+            return [canon_data(r[0]), sorted(canon_err(e) for e in r[1])]
         if op == 'max_depth':
             r = schema.decode(xml, validation='lax', max_depth=1 + arg % 2)
             return [canon_data(r[0]), sorted(canon_err(e) for e in r[1])]
@@ -286,6 +292,10 @@ def subject(case):
                 return k, r, results, used
         return None, None, results, used
     hist = [tuple(h) for h in case['history']]
+    # the baseline is computed first, in a process that has done nothing else, the calls with decoding options last:
+    # state kept at class or module level by an earlier call then shows up as a difference too
+    for key in sorted(set(hist), key=lambda h: (h[0] == 'decode_typed', h)):
+        fresh(*key)
     k, r, results, used = run(hist)
     out = {'steps': len(hist), 'results': None, 'mismatch': None, 'probe': scratch_and_cache_probe(xmlschema, used)}
     out['dup_counts'] = [[sum('duplicated value' in e and "'K'" in e for e in errs_of(res)),
@@ -331,7 +341,7 @@ def model_docs(case):
 
 
 def evaluate(ctx, cases):
-    impl = common.pool_map(subject, cases)
+    impl = common.pool_map(subject, cases, fresh_process=True)
     terms = ['dups %s' % coq_list([coq_list([coq_node(n) for n in d]) for d in model_docs(c)]) for c in cases]
     model = common.coq_eval('C10', IMPORTS, DEFS, terms, shard=40)
     for c, o, m in zip(cases, impl, model):
@@ -376,7 +386,7 @@ def gen(ctx):
 
 
 def run(ctx):
-    ctx.rule = ('seeded histories of 2-12 public calls (17 operations: verdicts, strict failures, partially consumed iterators, lax / '
+    ctx.rule = ('seeded histories of 2-12 public calls (18 operations: verdicts, strict failures, partially consumed iterators, lax / '
                 'strict / skip decode, to_objects, encode, stop / skip / lax validation hooks, lazy runs, max_depth, simple-type calls '
                 'through the scratch context) over 2-5 generated documents per schema object (xsi:type inside and outside identity '
                 'scopes, unique / key / keyref, ID / IDREF, wildcards with and without xsi:type, fixed values, XSD 1.1 assertions), '
